@@ -382,4 +382,4 @@ def run(ctx):
 
 
 def replay(payload):
-    return True
+    return None      # no input-specific replay: run_check re-runs the check with the recorded seed and tier
